@@ -7,6 +7,7 @@ from collections import Counter
 
 import numpy as np
 
+from harness import extras as X
 from harness import monitors as M
 
 ROOT = os.path.dirname(os.path.dirname(os.path.abspath(__file__)))
@@ -75,12 +76,12 @@ REGISTRY.update({
                           "C10_prefix_holds"],
                 corr=["sched.status", "sched.rid", "sched.count", "delta.total", "rec.status", "reb.status"],
                 monitors=[M.mon_c10]),
-    "C11": dict(**_p(EV_FILES + ["Proofs/C07Proofs.v", "Proofs/C11Proofs.v"], ["Props/C11.v"], ["Layout", "Defaults"]),
+    "C11": dict(**_p(EV_FILES + ["Proofs/C07Proofs.v", "Proofs/C11Proofs.v"], ["Props/C11.v"], ["Layout", "Ctor"]),
                 theorems=["C11_ids_activate_holds", "C11_ids_start_holds", "C11_ids_ledgers_holds", "C11_ids_step_holds",
                           "C11_no_internal_error_holds", "C07_perm_holds"],
                 corr=["sched.status", "sched.rid", "sched.count", "reb.status", "reb.rid", "reb.count", "reb.blocks",
                       "delta.capital", "delta.arbitrary", "events.error", "rec.oracle"],
-                monitors=[M.mon_run_ok("C11")]),
+                monitors=[M.mon_run_ok("C11")], extra=X.extra_c11),
 })
 
 
